@@ -17,6 +17,10 @@ pub struct Args {
     pub only_case: Option<u64>,
     /// Scale factor on the number of cases (driver may shrink for Miri / sanitizer builds).
     pub scale_pct: u64,
+    /// Total number of cases over all shards, whatever the tier (Miri / sanitizer runs).
+    pub cases_total: Option<u64>,
+    /// Added to every case id (so a slow sanitizer run explores other cases than the native run).
+    pub case_offset: u64,
     pub extra: BTreeMap<String, String>,
 }
 
@@ -30,6 +34,8 @@ impl Args {
             out: String::new(),
             only_case: None,
             scale_pct: 100,
+            cases_total: None,
+            case_offset: 0,
             extra: BTreeMap::new(),
         };
         let mut it = std::env::args().skip(1);
@@ -47,6 +53,8 @@ impl Args {
                 "--out" => a.out = val(),
                 "--only-case" => a.only_case = Some(val().parse().unwrap()),
                 "--scale-pct" => a.scale_pct = val().parse().unwrap(),
+                "--cases-total" => a.cases_total = Some(val().parse().unwrap()),
+                "--case-offset" => a.case_offset = val().parse().unwrap(),
                 other if other.starts_with("--") => {
                     let v = val();
                     a.extra.insert(other[2..].to_string(), v);
@@ -64,7 +72,7 @@ impl Args {
     /// Number of cases for this shard given per-tier totals.
     pub fn cases(&self, quick_total: u64, thorough_total: u64) -> u64 {
         let total = if self.thorough() { thorough_total } else { quick_total };
-        let total = (total * self.scale_pct / 100).max(1);
+        let total = self.cases_total.unwrap_or((total * self.scale_pct / 100).max(1));
         total.div_ceil(self.shards).max(1)
     }
 
@@ -75,7 +83,7 @@ impl Args {
 
     /// Global case index of this shard's `i`th case.
     pub fn case_id(&self, i: u64) -> u64 {
-        i * self.shards + self.shard
+        self.case_offset + i * self.shards + self.shard
     }
 
     pub fn extra_u64(&self, k: &str, default: u64) -> u64 {
